@@ -308,11 +308,8 @@ def run_property(pid, rules, meta, ctx, only=None, out=sys.stdout, seed=0, write
                          'failed': sum(1 for o in obs if not o.ok), 'floor': r.floor})
         all_obs.extend(obs)
 
-    if errors:
-        for e in errors:
-            out.write('ANALYSIS-ERROR property=%s %s\n' % (pid, e))
-        out.flush()
-        return 2
+    for e in errors:
+        out.write('ANALYSIS-ERROR property=%s %s\n' % (pid, e))
 
     fails = [o for o in all_obs if not o.ok]
     viols = []
@@ -349,6 +346,11 @@ def run_property(pid, rules, meta, ctx, only=None, out=sys.stdout, seed=0, write
         out.write('  %s  %s  [%s]  %s\n' % (o.where, o.rule, o.key, o.msg))
 
     wall = time.time() - t0
+    if errors:
+        # an analysis error never passes; violations found by the other rules are still reported (exit 1 wins)
+        out.write('%s %s: analysis incomplete (%d rule(s) could not run), %d violation(s) from the others\n' % (pid, ctx.tier, len(errors), len(viols)))
+        out.flush()
+        return 1 if viols else 2
     if write_evidence and only is None:
         distinct = len({(o.rule, o.key) for o in all_obs if o.nontrivial})
         # samples: a few per rule, failures first
